@@ -68,6 +68,38 @@ def random_marks(hs, rng, style='random', max_levels=4, frac=0.3):
         marks[l] = [c for c in block if c in aset] or [c0]
     return marks
 
+QUERIES = ('indices_to_smooth', 'dirichlet_dofs', 'non_dirichlet_dofs', 'represent_fine', 'represent_fine_thb', 'thb_to_hb', 'boundary', 'ravel_global',
+           'compute_supports', 'active_indices', 'virtual_prolongators', 'incidence', 'prolongate_to_copy', 'cell_supp')
+
+def poke(hs, rng, p=0.5):
+    """What a solve-estimate-mark-refine loop does between refinements: read-only queries on the live object.  Whatever they
+    cache must be invalidated by the next refine(); whatever they return must not be changed by later calls.  Returns the names
+    of the queries made (exceptions are recorded with a '!' prefix, they are the business of the checks that own the route)."""
+    made = []
+    if rng.random() > p: return made
+    names = [q for q in QUERIES if rng.random() < 0.3] or [QUERIES[int(rng.integers(0, len(QUERIES)))]]
+    for q in names:
+        try:
+            if q == 'indices_to_smooth': hs.indices_to_smooth(['new', 'trunc', 'func_supp', 'cell_supp'][int(rng.integers(0, 4))])
+            elif q == 'dirichlet_dofs': hs.dirichlet_dofs()
+            elif q == 'non_dirichlet_dofs': hs.non_dirichlet_dofs()
+            elif q == 'represent_fine': hs.represent_fine(truncate=False)
+            elif q == 'represent_fine_thb': hs.represent_fine(truncate=True)
+            elif q == 'thb_to_hb': hs.thb_to_hb()
+            elif q == 'boundary':
+                if hs.dim >= 2: hs.boundary((int(rng.integers(0, hs.dim)), int(rng.integers(0, 2))))
+            elif q == 'ravel_global': hs.ravel_global
+            elif q == 'compute_supports': hs.compute_supports([sorted(a)[:2] for a in hs.actfun])
+            elif q == 'active_indices': hs.active_indices(); hs.deactivated_indices()
+            elif q == 'virtual_prolongators': hs.virtual_hierarchy_prolongators()
+            elif q == 'incidence': hs.incidence_matrix()
+            elif q == 'prolongate_to_copy': hs.prolongate_to(hs.copy())
+            elif q == 'cell_supp': hs.cell_supp_indices(remove_dirichlet=False)
+            made.append(q)
+        except Exception as ex:
+            made.append('!' + q + ':' + type(ex).__name__)
+    return made
+
 def build(desc, on_step=None):
     """Build the HSpace of the descriptor by replaying/generating its refinement history.
     Returns (hs, explicit_history) where explicit_history lists the marks actually passed."""
@@ -79,6 +111,8 @@ def build(desc, on_step=None):
     bdspecs = None if bd is None else [tuple(b) if not isinstance(b, str) else b for b in bd]
     hs = hierarchical.HSpace(kvs, truncate=bool(desc.get('truncate', False)), disparity=disp, bdspecs=bdspecs)
     hist = []
+    prng = rng_for('hgen-poke', desc.get('hseed', 0))
+    if desc.get('poke'): poke(hs, prng)
     if on_step: on_step(hs, None)
     if 'history' in desc:
         rng = rng_for('hgen-c', desc.get('hseed', 0))
@@ -87,6 +121,7 @@ def build(desc, on_step=None):
             if desc.get('mark_truncate'): hs.refine(m, truncate=True)
             else: hs.refine(m)
             hist.append({int(l): [list(c) for c in cs] for l, cs in marks.items()})
+            if desc.get('poke'): poke(hs, prng)
             if on_step: on_step(hs, m)
     else:
         rng = rng_for('hgen', desc.get('hseed', 0))
@@ -98,6 +133,7 @@ def build(desc, on_step=None):
             hist.append({int(l): [list(c) for c in cs] for l, cs in marks.items()})
             if desc.get('mark_truncate'): hs.refine(m, truncate=True)       # T-admissible marking of [Bracco, Giannelli, Vazquez]
             else: hs.refine(m)
+            if desc.get('poke'): poke(hs, prng)
             if on_step: on_step(hs, m)
     return hs, hist
 
@@ -122,4 +158,5 @@ def random_desc(rng, dims=(1, 2), pmax=3, n0max=4, styles=('random', 'corner', '
     else: bd = [[a, s] for a in range(dim) for s in (0, 1)]
     return {'dim': dim, 'p': p, 'n0': n0, 'disparity': disp, 'truncate': bool(rng.integers(0, 2)), 'bdspecs': bd,
             'hseed': int(rng.integers(0, 2 ** 31)), 'steps': int(rng.integers(1, max_steps + 1)), 'style': str(rng.choice(styles)),
-            'container': str(rng.choice(['set', 'list', 'tuple', 'mixed', 'live'])), 'max_levels': max_levels}
+            'container': str(rng.choice(['set', 'list', 'tuple', 'mixed', 'live'])), 'max_levels': max_levels,
+            'poke': bool(rng.random() < 0.5)}
